@@ -608,7 +608,7 @@ func (w *bsWorld) compareWithTwin(r *Run, why string) {
 			want := ref.root()
 			r.Evals++
 			if !strings.HasPrefix(got, "root "+hx(want[:])+" ") {
-				r.Fail(fmt.Sprintf("[C01] exit root for deposit count %d is `%s`; the contract algorithm over getLeafValue(deposit) gives %s (amount=%s)", ev.Bridge.DepositCount, got, want.Hex(), ev.Bridge.Amount.String()),
+				r.Fail(fmt.Sprintf("[C01,C12] exit root for deposit count %d is `%s`; the contract algorithm over getLeafValue(deposit) gives %s (amount=%s)", ev.Bridge.DepositCount, got, want.Hex(), ev.Bridge.Amount.String()),
 					append([]string{"new"}, w.lines...))
 				return
 			}
